@@ -43,12 +43,32 @@ fn run(data: &[u8], ctx: &mut Ctx, max_ops: usize) -> CheckResult {
 
 fn t_history(data: &[u8], ctx: &mut Ctx) -> CheckResult { run(data, ctx, 80) }
 
+/// The public path: MutableState handles with checkpoints (make_fresh_generation), rollbacks
+/// (going back to a parent handle), and freezes.
+fn t_mutable_state(data: &[u8], ctx: &mut Ctx) -> CheckResult {
+    let mut u = Unstructured::new(data);
+    let ops = triecheck::mstate::decode(&mut u, 40);
+    let f = triecheck::mstate::run(&ops, false, ctx)?;
+    if f.rollback_then_fresh {
+        ctx.class("checkpoint-after-abandoned-generation");
+        ctx.nontrivial(&ops);
+    }
+    if f.depth3 {
+        ctx.class("three-nested-generations");
+    }
+    if f.freezes > 0 {
+        ctx.class("freeze");
+    }
+    ctx.sample(|| format!("{} MutableState operations", ops.len()));
+    Ok(())
+}
+
 fn t_long(data: &[u8], ctx: &mut Ctx) -> CheckResult { run(data, ctx, 400) }
 
 pub fn property() -> Property {
     Property {
         id: "C03",
-        rule: "Histories of 1-80 (long: 1-400) operations over keys from a 7-byte alphabet (lengths 0-12, prefixes and extensions of earlier keys, occasional keys of 30-300 bytes) and values of length 0/1/63/64/65/~1KiB: insert/overwrite, lookup, set, get_mut+write/resize, delete, delete_prefix, iter/next/delete_iter, new_generation, normalize (rollback to any older generation), freeze + store/reload/cache/serialize/migrate + thaw, full scan. Applied to the real MutableTrie/PersistentState and to a BTreeMap model with a stack of generations; every return value is compared, a full ascending scan plus point lookups of all keys ever used is compared every 16 steps, after every rollback and at the end, and the persistent state the trie was thawed from must stay unchanged. Non-trivial = history that removed an existing key, read afterwards, and used keys sharing a proper prefix; distinct by operation list.",
+        rule: "Histories of 1-80 (long: 1-400) operations over keys from a 7-byte alphabet (lengths 0-12, prefixes and extensions of earlier keys, occasional keys of 30-300 bytes) and values of length 0/1/63/64/65/~1KiB: insert/overwrite, lookup, set, get_mut+write/resize, delete, delete_prefix, iter/next/delete_iter, new_generation, normalize (rollback to any older generation), freeze + store/reload/cache/serialize/migrate + thaw, full scan. Applied to the real MutableTrie/PersistentState and to a BTreeMap model with a stack of generations; every return value is compared, a full ascending scan plus point lookups of all keys ever used is compared every 16 steps, after every rollback and at the end, and the persistent state the trie was thawed from must stay unchanged. Target mutable-state drives the public MutableState API instead: a tree of handles created by make_fresh_generation (checkpoints), modifications and scans through get_inner on any live handle (which rolls back everything derived from it), and freezes, each handle compared with its own model map. Non-trivial = history that removed an existing key, read afterwards, and used keys sharing a proper prefix; distinct by operation list.",
         assumptions: &[
             "crate-private operations are driven through the guarded verif_* wrappers (hook H2), which add no logic",
             "entry handles and iterators are only used in the generation they were obtained in (the host layer guarantees this)",
@@ -62,6 +82,10 @@ pub fn property() -> Property {
                 ("indirect-value-rewritten", 0.03),
             ]),
             Target::new("long-history", t_long).len(512, 6000).cases(4_000, 300_000),
+            Target::new("mutable-state", t_mutable_state)
+                .len(32, 600)
+                .cases(40_000, 2_000_000)
+                .floors(&[("checkpoint-after-abandoned-generation", 0.1), ("three-nested-generations", 0.1)]),
         ],
     }
 }
